@@ -33,17 +33,27 @@ def bounds(tier):
     return {'max_strings': 3 if tier == 'quick' else 4, 'alphabet': [repr(a) for a in ALPHA], 'encodings': ENCODINGS}
 
 
+JSON_OBJS = [[], [{'a': 'x'}], [{'a': '\u00e9'}, {'b': '\U0001F600'}], [{'a': 1}, {'b': '\ufeff'}, {'c': 'e\u0301'}]]
+
+
 def units(tier):
     L = 3 if tier == 'quick' else 4
     out = []
     for enc in ENCODINGS:
+        for comp in (None, 'gzip', 'zstd'):
+            out.append({'fam': 'json', 'enc': enc, 'comp': comp})
+    for enc in ENCODINGS:
         n = 8 if enc != 'latin-1' else 2
         for sh in range(n):
-            out.append({'enc': enc, 'L': L if enc in ('utf-8', 'latin-1') else L - 1 + (1 if tier != 'quick' else 0), 'shard': [sh, n]})
+            out.append({'fam': 'codec', 'enc': enc, 'L': L if enc in ('utf-8', 'latin-1') else L - 1 + (1 if tier != 'quick' else 0), 'shard': [sh, n]})
     return out
 
 
 def cases(unit):
+    if unit.get('fam') == 'json':
+        for i in range(len(JSON_OBJS)):
+            yield {'fam': 'json', 'enc': unit['enc'], 'comp': unit['comp'], 'objs': i}
+        return
     sh, n = unit['shard']
     alpha = LATIN if unit['enc'] == 'latin-1' else ALPHA
     for i, idx in enumerate(spaces.sequences(range(len(alpha)), unit['L'])):
@@ -55,7 +65,61 @@ def viol(enc, sym, detail):
     return {'signature': 'C17|%s|%s' % (enc, sym), 'detail': detail}
 
 
+def run_json(case, acc):
+    """The same incremental codec inside json.dump_to_file / load_from_file (with and without compression):
+    the stored bytes, decoded in one shot, are the JSON lines (byte-order mark once), and load returns the objects
+    under every single short read."""
+    import gzip
+    import json as pyjson
+    import rx
+    import zstandard
+    import rxsci.container.json as rsjson
+    from ..bytelevel import Device, RawSink
+    enc, comp = case['enc'], case['comp']
+    objs = JSON_OBJS[case['objs']]
+    if enc == 'latin-1':
+        objs = [o for o in objs if all(ord(ch) < 256 for v in o.values() if isinstance(v, str) for ch in v)]
+    dev = Device()
+    s = RawSink()
+    s.subscribe_to(rx.from_(objs).pipe(rsjson.dump_to_file(dev, encoding=enc, compression=comp)))
+    acc.evals += 1
+    acc.events += len(objs) + 1
+    if s.error is not None or s.completed != 1:
+        return [viol(enc, 'json-dump_to_file-error', {'objects': objs, 'compression': comp, 'error': repr(s.error)})]
+    data = dev.content()
+    raw = data
+    try:
+        if comp == 'gzip':
+            raw = gzip.decompress(data)
+        elif comp == 'zstd':
+            raw = zstandard.ZstdDecompressor().decompressobj().decompress(data)
+        text = raw.decode(enc)
+        back = [pyjson.loads(l) for l in text.split('\n') if l]
+    except Exception as e:
+        return [viol(enc, 'json-file-not-decodable-in-one-shot (byte-order mark written more than once?)',
+                     {'objects': objs, 'compression': comp, 'error': repr(e)})]
+    if back != objs:
+        return [viol(enc, 'json-file-one-shot-decode-differs (byte-order mark written more than once?)',
+                     {'objects': objs, 'compression': comp, 'decoded': text})]
+    L = len(data)
+    for sched in [[]] + [[p] for p in range(1, L)]:
+        d = Device(data, sched)
+        r = RawSink()
+        r.subscribe_to(rsjson.load_from_file(d, encoding=enc, compression=comp))
+        acc.evals += 1
+        acc.events += d.reads + 1
+        acc.traces += 1
+        if r.error is not None or r.completed != 1 or r.items != objs:
+            return [viol(enc, 'json-load_from_file-differs', {'objects': objs, 'compression': comp, 'read_schedule': sched,
+                                                              'loaded': r.items, 'error': repr(r.error)})]
+    acc.count('json_files')
+    acc.outcomes.add(fast_hash((enc, comp, case['objs'])))
+    return []
+
+
 def run_case(case, acc):
+    if case.get('fam') == 'json':
+        return run_json(case, acc)
     enc = case['enc']
     alpha = LATIN if enc == 'latin-1' else ALPHA
     strings = [alpha[i] for i in case['strings']]
